@@ -20,12 +20,12 @@ def run(ctx):
     ctx.rule(RULE)
     ctx.trust("tm-db MemDB (root of every stack) is assumed to implement the KV specification; it is compared with the specification store on every line but not proved",
               "iterators are compared by their drained contents; snapshot behaviour of open iterators is observed, not proved of the Go heap")
-    n = 250000 if ctx.thorough else 6000
+    n = 1000000 if ctx.thorough else 6000
     ctx.stream("cachekv", "c01", "Driver/C01.lean", n=n)
     if ctx.thorough:
         for s in range(3):
-            ctx.stream(f"cachekv-s{s}", "c01", "Driver/C01.lean", n=150000, seed=ctx.seed * 1000 + 53 + s)
-        ctx.stream("cachekv-prefix-mix", "c01", "Driver/C01.lean", n=100000, seed=ctx.seed * 1000 + 99, args=["-pwrap", "5", "-depth", "4"])
+            ctx.stream(f"cachekv-s{s}", "c01", "Driver/C01.lean", n=400000, seed=ctx.seed * 1000 + 53 + s)
+        ctx.stream("cachekv-prefix-mix", "c01", "Driver/C01.lean", n=300000, seed=ctx.seed * 1000 + 99, args=["-pwrap", "5", "-depth", "4"])
     else:
         ctx.stream("cachekv-prefix-mix", "c01", "Driver/C01.lean", n=2500, seed=ctx.seed * 1000 + 99, args=["-pwrap", "5", "-depth", "4"])
 
